@@ -18,6 +18,7 @@
 //	SAVE n   snapshot of the running replica (no restart). With a concurrent state machine
 //	         (header kind=conc) and n > 0 the next n entries are applied between the two steps
 //	         of concurrentSave (after prepare released s.mu, before the file is written)
+//	OLD      the live replica is offered its own previous (older than applied) snapshot: must be refused
 //	RESTART  fresh StateMachine: recover from the most recent snapshot, replay the log above it
 //	Q c      a client API call that does not reach the log: every exported session accessor of
 //	         the real StateMachine (found by reflection) is called, with client id c
@@ -207,6 +208,8 @@ func runCase(line string, obs *vh.LineWriter, st *vh.Stats) {
 		}
 	}
 	var pend *pendingSave
+	var stash *entryResult
+	stashK := -1
 	saves, restarts, windowed := 0, 0, 0
 	closeSave := func() {
 		p := pend
@@ -285,9 +288,49 @@ func runCase(line string, obs *vh.LineWriter, st *vh.Stats) {
 		case "SAVE":
 			st.Count("op.SAVE")
 			saves++
+			// concurrent kind, real concurrentSave: if the save does not hold s.mu while it
+			// fixes the snapshot index, the session image and the state machine image, the
+			// update thread can get an entry in between. The next entry of the stream is
+			// offered from inside the user's PrepareSnapshot, and taken only when s.mu is
+			// free there (never on a correct implementation, where it would deadlock).
+			stash, stashK = nil, -1
+			if r.conc && lagLeft == 0 && k+1 < len(ops) && ops[k+1].kind == "E" && entryKind(ops[k+1]) != "bad" {
+				rr, nk, no := r, k+1, ops[k+1]
+				r.usm.onPrepare = func() {
+					if rr.muFree() {
+						res := rr.apply(no)
+						stash, stashK = &res, nk
+						st.Count("save.entry_applied_inside_prepare")
+					}
+				}
+			}
 			pend = r.saveBegin(k, o.n)
+			r.usm.onPrepare = nil
 			if pend.twoStep {
 				windowed++
+			}
+		case "OLD":
+			st.Count("op.OLD")
+			if !r.snap.has {
+				obs.Printf("%s %d OLD none\n", id, k)
+				continue
+			}
+			c0, before := r.dump()
+			acc0 := r.usm.acc
+			refused, perr := r.installOld()
+			c1, after := r.dump()
+			if perr != "" {
+				obs.Printf("%s %d OLD panic\n", id, k)
+				viol("op %d: offering an out-of-date snapshot to the live replica panicked: %s", k, perr)
+				continue
+			}
+			if refused {
+				obs.Printf("%s %d OLD refused\n", id, k)
+			} else {
+				obs.Printf("%s %d OLD accepted\n", id, k)
+			}
+			if !refused || showSessions(c0, before) != showSessions(c1, after) || acc0 != r.usm.acc {
+				viol("out-of-date snapshot: the live replica (applied index above the snapshot's) accepted=%v a snapshot older than its state: %s sm=%d -> %s sm=%d", !refused, showSessions(c0, before), acc0, showSessions(c1, after), r.usm.acc)
 			}
 		case "RESTART":
 			st.Count("op.RESTART")
@@ -336,7 +379,12 @@ func runCase(line string, obs *vh.LineWriter, st *vh.Stats) {
 			}
 			capBefore, before := x.dump()
 			accBefore := x.usm.acc
-			res := x.apply(o)
+			var res entryResult
+			if stash != nil && stashK == k && x == r {
+				res, stash = *stash, nil // already applied from inside the snapshot save
+			} else {
+				res = x.apply(o)
+			}
 			history = append(history, o)
 			if batched {
 				buf = append(buf, buffered{k, o, res.String()})
